@@ -194,6 +194,7 @@ class Kernel:
         self._h = hashlib.sha256()
         self._fp = hashlib.sha256()
         self.n_decisions = 0
+        self.n_io = 0
         self.n_switches = 0
         self.aborting = False
         self.end_reason = None
@@ -727,6 +728,7 @@ class Kernel:
 
     def read(self, fd, n):
         a = self.enter('read')
+        self.n_io += 1
         of = self._of(a.proc, fd)
         p = of.rpipe
         if p is None:
@@ -753,6 +755,7 @@ class Kernel:
 
     def write(self, fd, data):
         a = self.enter('write')
+        self.n_io += 1
         of = self._of(a.proc, fd)
         p = of.wpipe
         if p is None:
@@ -813,7 +816,8 @@ class Kernel:
         for fd in fds:
             if fd not in proc.fds:
                 raise ValueError('invalid file descriptor %r' % (fd,))
-        self._maybe_eintr('poll')
+        if self.cfg.get('eintr_poll'):
+            self._maybe_eintr('poll')
 
         def ready():
             for fd in fds:
